@@ -752,6 +752,7 @@ pub fn run(task: &str) -> Option<EvalResult> {
         "sig_paths_ground" => Some(sig_paths_ground()),
         "relations_ground" => Some(crate::relations::relations_ground()),
         "builders_ground" => Some(crate::builders::builders_ground()),
+        "paths_ground" => Some(crate::paths::paths_ground()),
         "pos_v2_hash" => Some(pos_v2_hash()),
         "datalayer_ground" => Some(datalayer_ground()),
         "bls_cache_ground" => Some(bls_cache_ground()),
